@@ -30,7 +30,9 @@ RULE = (
     ".records.gz and .jsonl, filtered by RecordReader(path, selector=text | CompiledSelector) and by rdump in-process "
     "(compiled by default, -n interpreted) with comparison templates over every operator and the boolean contexts; "
     "oracle: output == [r for r in input if reference(expr, r, lenient)] by canonical observation, in particular "
-    "nothing after the first record lacking the field is lost.  A case is non-trivial when at least one engine "
+    "nothing after the first record lacking the field is lost.  Part C: sequences mixing two descriptors that share a "
+    "name, only one of which has the compared field, in both orders, through match() of one long-lived and of fresh "
+    "selector objects (compiled and interpreted), RecordReader and rdump; same oracle.  A case is non-trivial when at least one engine "
     "evaluation / one stream with records having and lacking the field was run; distinct = distinct (expression, "
     "record or stream seed, access path)."
 )
@@ -89,8 +91,11 @@ DERIVED = [
     ("arith", "r.zz & 1"), ("arith", "r.zz | 1"), ("arith", "r.n + r.zz"), ("arith", "r.zz + r.nope"), ("arith", "(r.zz + 1) * 2"),
     ("arith", "r.s + r.zz"), ("arith", "r.zz.size + 1"),
     ("attr", "r.zz.year"), ("attr", "r.zz.a.b"), ("attr", "r.zz.filename"), ("attr", "r.zz.a.b.c.d"),
+    # %-formatting: str / bytes never defer to the right operand's reflected method
+    ("format", "'%s' % r.zz"), ("format", "'%d' % r.zz"), ("format", "b'%s' % r.zz"), ("format", "'%s' % r.zz.a"), ("format", "'port %s' % (r.zz + 1)"),
+    ("format-tuple", "'%s-%s' % (r.zz, 1)"), ("format-tuple", "'%s-%s' % (r.n, r.zz)"), ("format-tuple", "'%d' % (r.zz,)"),
 ]
-DERIVED_OTHERS = ["0", "1", "5", "'x'", "None", "r.n", "[0]", "False"]
+DERIVED_OTHERS = ["0", "1", "5", "'x'", "None", "r.n", "[0]", "False", "'443'", "b'x'", "['beta', 'x']"]
 
 HELPERS = [
     "field_contains(r, %s, %s)", "field_contains(r, %s, %s, nocase=False)", "field_contains(r, %s, %s, word_boundary=True)",
@@ -145,6 +150,17 @@ def classify_cmp(engine, op, pos, values, typed, got, exc):
     return None
 
 
+def classify_derived(engine, category, got, exc):
+    """Derived operands: only %-formatting in the compiled engine is a known mechanism; arithmetic / attribute operands
+    and the interpreted engine's tuple form were repaired (plain violations again)."""
+    bad = got == ("V", True) or (got[0] == "E" and isinstance(exc, TypeError))
+    # compiled engine: `<str|bytes literal> % <expression containing the missing field>`: str.__mod__ formats the
+    # sentinel (through its repr, or TypeError for %d / bytes) instead of deferring to it
+    if engine == "compiled" and category in ("format", "format-tuple") and bad:
+        return "compiled-str-format-missing-field"
+    return None
+
+
 # ---- harness -------------------------------------------------------------------------------------------
 class _LogTap(logging.Handler):
     def __init__(self):
@@ -188,6 +204,14 @@ def engines():
     return (("interpreted", Selector), ("compiled", CompiledSelector))
 
 
+# same-name descriptors: two record types called alike, only one has the compared field `k`
+SAME_NAME = "c08/same"
+SAME_FIELDS = ([("varint", "seq"), ("varint", "k"), ("string", "s")], [("varint", "seq"), ("string", "s")])
+SAME_TEMPLATES = ["r.k > 1", "r.k == 2", "r.k != 2", "r.k <= 3", "2 < r.k", "r.k in [1, 2, 3]", "r.k >= 2 and r.s != 'x'", "not (r.k == 2)",
+                  "r.k + 1 > 2", "field_equals(r, ['k', 's'], ['Hello'])"]
+SAME_VIAS = ("match-one-compiled", "match-fresh-compiled", "match-one-interpreted", "reader-text", "reader-compiled", "rdump", "rdump-n")
+
+
 def table_rows():
     """The enumerated comparison grammar (independent of seed)."""
     for op in OPS:
@@ -212,12 +236,12 @@ def generate(ctx):
                        "pool": pool_seed, "rec": ri}
             idx += 1
         for category, dsrc in DERIVED:
-            for op in OPS[:6] + ["in"]:
+            for op in OPS[:6] + ["in"] + (["not in"] if category.startswith("format") else []):
                 for o in DERIVED_OTHERS:
-                    if op == "in" and not o.startswith("["):
+                    if op in ("in", "not in") and not o.startswith("["):
                         continue
                     for fmt in ("%s {op} {o}", "{o} {op} %s"):
-                        if op == "in" and fmt.startswith("{o}"):
+                        if op in ("in", "not in") and fmt.startswith("{o}"):
                             continue
                         fmt = fmt.format(op=op, o=o)
                         if ctx.mine(idx):
@@ -235,6 +259,18 @@ def generate(ctx):
             if ctx.mine(idx):
                 yield {"k": "helper", "expr": "has_field(r, %r)" % f, "pool": pool_seed, "rec": ri}
             idx += 1
+    # ---- part C: two descriptors with the same name, only one has the field; both orders
+    for si in range(ctx.scale(1, 4)):
+        sseed = subseed("c08", ctx.seed, "same", si)
+        for order in ("with-field-first", "without-field-first"):
+            for ti, expr in enumerate(SAME_TEMPLATES):
+                for vi, via in enumerate(SAME_VIAS):
+                    fmts = [FORMATS[(ti + vi + si) % len(FORMATS)]] if (ctx.quick or via.startswith("match")) else FORMATS
+                    for fmt in fmts:
+                        if ctx.mine(idx):
+                            yield {"k": "same-name", "expr": expr, "ti": ti, "order": order, "via": via, "fmt": fmt, "s": sseed,
+                                   "n": ctx.scale(10, 24)}
+                        idx += 1
     # ---- part B: heterogeneous streams
     templates = stream_templates()
     nseeds = ctx.scale(1, 10)
@@ -303,7 +339,7 @@ def exec_derived(ctx, case):
     rec = pool_for(ctx, case["pool"])[case["rec"]]
     ctx.cell("derived", case["category"], case["op"])
     ctx.nontrivial("derived", case["cmp"], case["pool"], case["rec"])
-    check_comparison(ctx, case, rec, case["cmp"], lambda engine, got, exc: None)
+    check_comparison(ctx, case, rec, case["cmp"], lambda engine, got, exc: classify_derived(engine, case["category"], got, exc))
     ctx.sample({"comparison": case["cmp"], "expected": "False, no exception"}, kind="derived:" + case["category"])
 
 
@@ -388,6 +424,9 @@ def stream_templates():
                         ("r.d.year == 2020", "d"), ("r.d.year != 1999", "d"), ("r.u.filename == 'z.txt'", "u"), ("r.t + 'x' != 'x'", "t"),
                         ("r.m + r.k > 0", "m,k"), ("not (r.k + 1 > 2)", "k"), ("r.k + 1 > 2 or r.f > 1", None)):
         out.append({"expr": expr, "meta": {"op": "derived", "pos": "L", "other": "None", "needs": needs}})
+    for expr, needs, cat in (("'%d' % r.k == '2'", "k", "format"), ("'%s' % r.t != 'beta'", "t", "format"), ("'host-%s' % r.t == 'host-b'", "t", "format"),
+                             ("'%s-%s' % (r.k, 1) != '2-1'", "k", "format-tuple")):
+        out.append({"expr": expr, "meta": {"op": "derived", "pos": "L", "other": "None", "needs": needs, "category": cat}})
     add("field_contains(r, ['t', 'zz'], ['hello'])", "helper", "L", "None", wrap=False)
     add("field_equals(r, ['k', 's'], ['x', 'Hello'])", "helper", "L", "None", wrap=False)
     add("field_regex(r, ['t'], '^[Hh]')", "helper", "L", "None", wrap=False)
@@ -579,7 +618,12 @@ def exec_stream(ctx, case):
                 values = other_values(meta["other"], r)
                 # a template that deviates by value does so because its comparison on the missing field is truthy
                 bare = g if g[0] == "E" else ("V", True)
-                keys.add(classify_cmp(engine, meta["op"], meta["pos"], values, False, bare, exc) if meta["op"] in OPS else None)
+                if meta["op"] in OPS:
+                    keys.add(classify_cmp(engine, meta["op"], meta["pos"], values, False, bare, exc))
+                elif meta.get("category"):
+                    keys.add(classify_derived(engine, meta["category"], bare, exc))
+                else:
+                    keys.add(None)
             if g[0] == "E":
                 aborted = True
                 break  # the rest of this source is lost, the next source is still read
@@ -598,8 +642,85 @@ def exec_stream(ctx, case):
     )
 
 
+def build_same(seed, order, n, ti=0):
+    """Both descriptors carry the same name; the name is private to (template, order), so whatever an implementation
+    remembers per descriptor name is first primed by the first record of exactly this sequence."""
+    from flow.record import RecordDescriptor
+
+    rng = random.Random(seed)
+    name = "%s_%s_%d" % (SAME_NAME, "a" if order == "with-field-first" else "b", ti)
+    D = [RecordDescriptor(name, f) for f in SAME_FIELDS]
+    kinds = ([0, 1] if order == "with-field-first" else [1, 0]) + [rng.randrange(2) for _ in range(max(0, n - 2))]
+    out = []
+    for i, k in enumerate(kinds):
+        if k == 0:
+            out.append(D[0](seq=i, k=rng.choice(selgen.INTS), s=rng.choice(selgen.TEXTS)))
+        else:
+            out.append(D[1](seq=i, s=rng.choice(selgen.TEXTS)))
+    return out
+
+
+def exec_same_name(ctx, case):
+    from flow.record import RecordWriter
+    from flow.record.selector import CompiledSelector, Selector
+
+    expr, via, order, fmt = case["expr"], case["via"], case["order"], case["fmt"]
+    ti = case.get("ti", 0)
+    key = ("same", case["s"], order, case["n"], fmt, ti)
+    cache = ctx.state["streams"]
+    if key not in cache:
+        records = build_same(case["s"], order, case["n"], ti)
+        path = os.path.join(ctx.state["tmp"], "same-%x-%s-%d-%d.%s" % (case["s"], order, case["n"], ti, fmt))
+        w = RecordWriter(path)
+        for r in records:
+            w.write(r)
+        w.flush()
+        w.close()
+        cache[key] = (path, records)
+    path, records = cache[key]
+    if expr == "r.k + 1 > 2":
+        keep = ["k" in r._desc.fields and ref_match(expr, r) for r in records]
+    else:
+        keep = [ref_match(expr, r, lenient=True) for r in records]
+    expected = [ident(r) for r, k in zip(records, keep) if k]
+    ctx.ev()
+    err = None
+    swallowed = []
+    if via.startswith("match"):
+        cls = Selector if via.endswith("interpreted") else CompiledSelector
+        one = cls(expr)
+        actual = []
+        try:
+            for r in records:
+                sel = one if "-one-" in via else cls(expr)
+                if sel.match(r):
+                    actual.append(ident(r))
+        except Exception as e:  # noqa: BLE001
+            err = e
+    else:
+        got, err, swallowed = run_via(ctx, via, path, expr)
+        actual = [ident(r) for r in got]
+    ctx.event("same-name sequences")
+    ctx.event("same-name:" + via)
+    ctx.cell("same-name", order, via)
+    if any(keep) and not all(keep):
+        ctx.nontrivial("same-name", expr, order, case["s"], via, fmt)
+    ctx.sample({"selector": expr, "order": order, "via": via, "in": len(records), "out": len(actual)}, kind="same-name:" + order + ":" + via)
+    if actual == expected and err is None and not swallowed:
+        ctx.event("held")
+        return
+    ctx.event("VIOLATION")
+    ctx.violation(None, "records of two same-name descriptors (one lacks the field) are not filtered like the reference filter (%s)"
+                  % ("raised / rest lost" if (err or swallowed) else "different records"),
+                  detail={"selector": expr, "order": order, "via": via, "format": fmt, "expected_out": expected, "actual_out": actual,
+                          "exception": repr(err)[:300] if err else None, "swallowed_log": swallowed[:3],
+                          "input": [repr(r)[:120] for r in records[:6]]})
+
+
 def execute(ctx, case):
     k = case["k"]
+    if k == "same-name":
+        return exec_same_name(ctx, case)
     if k == "table":
         exec_table(ctx, case)
     elif k == "derived":
@@ -615,6 +736,7 @@ def finish(ctx):
     ctx.require(ctx.events.get("evaluations:interpreted", 0) > 0 and ctx.events.get("evaluations:compiled", 0) > 0,
                 "an engine was never evaluated in shard %d" % ctx.shard)
     ctx.require(ctx.events.get("streams", 0) > 0, "no stream was filtered in shard %d" % ctx.shard)
+    ctx.require(ctx.events.get("same-name sequences", 0) > 0, "no same-name sequence was filtered in shard %d" % ctx.shard)
     for q in ("flow.record.selector:NoneObject.__eq__", "flow.record.selector:NoneObject.__le__", "flow.record.selector:NoneObject.__contains__",
               "flow.record.selector:WrappedRecord.__getattr__", "flow.record.selector:RecordContextMatcher._eval"):
         ctx.require(ctx.reach.get(q, 0) > 0, "anchor %s was never entered" % q)
